@@ -178,7 +178,8 @@ def check_append(ctx):
     preds = [t for v in [res] + [g for e in ev.events for g in e.guard] for t in walk_vals(v) if isinstance(t, P) and any(veq(u, flag) for u in walk_vals(t))]
     leaves = [t for t in preds if t.op not in ('not', 'and', 'or')]
     odd = sorted({str(t) for t in leaves if not (t.op == 'truthy' and veq(t.args[0], flag))})
-    ctx.check(bool(leaves) and not odd, 'C17.3', 'append_one_sample: make_periodic is used as a truth value (any true value selects the periodic continuation)',
+    opaque = not leaves and any(isinstance(t, Term) and t.head in ('stored', 'loopstate', 'loopvar', 'mutated') for t in walk_vals(res))
+    ctx.check(None if opaque else (bool(leaves) and not odd), 'C17.3', 'append_one_sample: make_periodic is used as a truth value (any true value selects the periodic continuation)',
               f"tests on the flag: {odd or [str(t) for t in leaves][:3]}", fi.loc(), fi.qualname, 'append:truthy')
     ar = fi.node.args
     d = dict(zip(fi.params()[len(fi.params()) - len(ar.defaults):], ar.defaults)).get('make_periodic')
